@@ -60,7 +60,12 @@ def r02_1(ctx):
     f = prog.own_method("DirectCollocation", "add_variables")
     sc = ctx.scope(f)
     n = ctx.norm(f)
-    apps = {L: [a for a in walk_no_nested(f.node) if is_call_to(a, "append", L)] for L in ("Xc", "Zc", "self.Xc", "self.Zc", "self.X", "xr", "zr", "self.xr", "self.zr")}
+    apps = {L: [a for a in walk_no_nested(f.node) if is_call_to(a, "append", L)] for L in ("self.Xc", "self.Zc", "self.X", "self.xr", "self.zr")}
+    # the per-interval lists are whatever is appended to self.Xc / self.Zc / self.xr / self.zr (local names are free)
+    for key, outer in (("Xc", "self.Xc"), ("Zc", "self.Zc"), ("xr", "self.xr"), ("zr", "self.zr")):
+        inner = ast.unparse(apps[outer][0].args[0]) if len(apps[outer]) == 1 and isinstance(apps[outer][0].args[0], ast.Name) else None
+        apps[key] = [a for a in walk_no_nested(f.node) if inner is not None and is_call_to(a, "append", inner)]
+        apps[key + "_name"] = inner
     # Xc.append(horzcat(x0, xc)) inside (k, i)
     ok = len(apps["Xc"]) == 1
     if ok:
@@ -102,7 +107,7 @@ def r02_1(ctx):
                       expected="x0 = X[k] if i==0 else a fresh variable", found=ast.unparse(dx0[0].value) if dx0 else None, fi=f)
     ctx.check(ok, "DirectCollocation Xc[k][i] = horzcat(x_start, helper states)", detail="layout of Xc", expected="Xc.append(horzcat(x0, xc)) for i in range(M) inside k",
               found="; ".join(ast.unparse(a) for a in apps["Xc"]), fi=f)
-    okl = len(apps["self.Xc"]) == 1 and ast.unparse(apps["self.Xc"][0].args[0]) == "Xc" and [li.kind for li in loop_context(sc, n, apps["self.Xc"][0])] == ["N"]
+    okl = len(apps["self.Xc"]) == 1 and apps["Xc_name"] is not None and [li.kind for li in loop_context(sc, n, apps["self.Xc"][0])] == ["N"]
     ctx.check(okl, "DirectCollocation self.Xc[k] = list over i", detail="nesting of Xc", expected="self.Xc.append(Xc) once per k", found="; ".join(ast.unparse(a) for a in apps["self.Xc"]), fi=f)
     # xr (states at roots) holds the helper columns
     okr = len(apps["xr"]) == 1 and ok and ast.unparse(apps["xr"][0].args[0]) == ast.unparse(apps["Xc"][0].args[0].args[1])
